@@ -154,6 +154,13 @@ def real_specs(ck, rng):
             s['images'][(t // 6) % n]['kind'] = 'junk'
             s['minobj'] = 12
         s['tag'] = 'real-matcher'
+        # every third mosaic is aligned in ONE user-supplied common tangent plane (ref_tpwcs) for all images
+        s['common_tp'] = (t % 3 == 1)
+        if s['common_tp']:
+            # sparse reference: most rows of the final catalog are rows APPENDED from earlier images, so later images
+            # are matched against appended rows (their positions must be the corrected ones)
+            s['ref']['keep'] = 0.25
+            s['images'][0]['keep'] = 0.5
         out.append(s)
     return out
 
@@ -165,7 +172,10 @@ def run_real(spec):
         from tweakwcs import XYXYMatch
         B = A.build(spec)
         m = XYXYMatch(searchrad=8.0, separation=0.5, tolerance=1.5, use2dhist=True)
-        out = T['align_wcs'](B['cors'], refcat=B['refcat'], expand_refcat=spec['expand'],
+        reftp = None
+        if spec.get('common_tp'):
+            reftp = T['FITSWCSCorrector'](A.mkwcs((A.NEAR[0] + 2e-4, A.NEAR[1] - 1e-4), 33.0))
+        out = T['align_wcs'](B['cors'], refcat=B['refcat'], ref_tpwcs=reftp, expand_refcat=spec['expand'],
                              enforce_user_order=spec['enforce'], fitgeom=spec['fitgeom'], minobj=spec['minobj'],
                              match=m)
         st = [c.meta['fit_info']['status'] for c in B['cors']]
